@@ -1,13 +1,20 @@
 #!/bin/bash
-# run_seeded.sh [tier]  — runs every seeded change against the checks named in its meta.json; writes seeded/RESULTS.md
-TIER="${1:-quick}"
+# run_seeded.sh [tier] [name...]  — runs seeded changes against the checks named in their meta.json and
+# writes seeded/RESULTS.md. Without names: all of them (file rewritten); with names: only those (their rows
+# replaced / appended). Patches /repo's working tree: nothing else may touch /repo or run checks meanwhile.
+TIER="${1:-quick}"; shift
 OUT=/verif/seeded/RESULTS.md
-echo "# Seeded changes vs checks ($TIER tier, $(date -u +%F))" > $OUT
-echo "" >> $OUT
-echo "| seeded change | breaks | check | outcome | first signature |" >> $OUT
-echo "|---|---|---|---|---|" >> $OUT
-for d in /verif/seeded/*/; do
-  n=$(basename $d); [ -f $d/meta.json ] || continue
+if [ $# -eq 0 ]; then
+  echo "# Seeded changes vs checks ($TIER tier, $(date -u +%F))" > $OUT
+  echo "" >> $OUT
+  echo "| seeded change | breaks | check | outcome | first signature |" >> $OUT
+  echo "|---|---|---|---|---|" >> $OUT
+  set -- $(cd /verif/seeded && ls -d */ | tr -d /)
+else
+  for n in "$@"; do grep -v "^| $n |" $OUT > $OUT.tmp; mv $OUT.tmp $OUT; done
+fi
+for n in "$@"; do
+  d=/verif/seeded/$n; [ -f $d/meta.json ] || continue
   prop=$(python3 -c "import json;print(json.load(open('$d/meta.json'))['breaks_property'])")
   checks=$(python3 -c "import json;print(' '.join(json.load(open('$d/meta.json'))['checks_to_run']))")
   cd /repo; [ -z "$(git status --porcelain)" ] || { echo "repo dirty"; exit 2; }
@@ -21,3 +28,5 @@ for d in /verif/seeded/*/; do
   done
   git -C /repo checkout -- . ; git -C /repo clean -fdq
 done
+# keep the table sorted by name
+( head -4 $OUT; tail -n +5 $OUT | sort ) > $OUT.tmp && mv $OUT.tmp $OUT
